@@ -44,7 +44,8 @@ SPEC = {
                              ' or (not (gens and fval is None) and not (not gens and fval is None) and abs(hist[-1]-fval) <= abs(tolerance * fval)))'),
     'VTRChangeOverGeneration': (HIST + GENS, 'lg and ((lg > gens and (' + COG.format(tol='gtol') + ')) or abs(hist[-1] - target) <= ftol)'),
     'PopulationSpread': (['sim = numpy.array(inst.population)'], 'numpy.all(abs(sim - sim[0]) <= abs(tolerance * sim[0]))'),
-    'EvaluationLimits': (['gens = inst.generations', 'eval = inst._fcalls[0]'], 'eval >= maxfun[0] or gens >= maxiter[0]'),
+    'EvaluationLimits': (['gens = inst.generations', 'eval = inst._fcalls[0]'],
+                         'eval >= (inf if evaluations is None else evaluations) or gens >= (inf if generations is None else generations)'),
     'TimeLimits': ([], '(timer() - start[0]) >= delta[0]'),
     'SolverInterrupt': ([], 'inst._EARLYEXIT'),
     'CollapseWeight': (HIST, 'lg and not (lg <= generations) and ct.collapse_weight(inst._stepmon, **kwds)'),
@@ -98,7 +99,17 @@ def primitive_predicates(ctx):
         def follow(st):
             # `if info: info = ...` rebinding of the reporter is not part of the predicate
             return not (isinstance(st, ast.Assign) and isinstance(st.targets[0], ast.Name) and st.targets[0].id == 'info')
-        forms, n = PC.outcome_formulas(inner.node, _classify, follow=follow,
+        # closure cells that carry settings (EvaluationLimits: maxfun / maxiter, as one-element lists or plain values) are
+        # replaced by the value the factory gives them, so the predicate is read in terms of the factory's parameters
+        prelude_f = [st for st in fac.node.body if st.lineno < inner.node.lineno and not (isinstance(st, ast.Expr) and isinstance(st.value, ast.Constant))]
+        cenv = {}
+        if name == 'EvaluationLimits':
+            params_f = set(fac.args())
+            for nm in sorted(set(x for st in prelude_f for x in assigned_names(st)) - params_f - set(NOT_SETTINGS)):
+                v = combined_value(prelude_f, nm)
+                if v is not None:
+                    cenv[nm] = v
+        forms, n = PC.outcome_formulas(inner.node, _classify, follow=follow, builder=T.Builder(env=cenv),
                                        relevant=lambda nd: not (isinstance(nd, ast.Name) and nd.id == 'info'))
         ctx.stats['paths_enumerated'] += n
         if 'other' in forms:
@@ -351,7 +362,9 @@ def settings_reach_the_predicate_unchanged(ctx):
                 v = b.env.get(cell)
                 if v is not None:
                     v = T.simp(v)
-                    runs.append((p, list(v[1:]) if v[0] in ('list', 'tuple') else [v], [(c, tr) for c, tr, _ in conds]))
+                    # a conditional expression is the same thing as a branch: one run per case
+                    for cl, leaf in T.cases(v):
+                        runs.append((p, list(leaf[1:]) if leaf[0] in ('list', 'tuple') else [leaf], [(c, tr) for c, tr, _ in conds] + list(cl)))
             # the parameter each slot of the cell stands for: the one it holds on the paths that leave it alone
             owner = {}
             for p, elems, lits in runs:
